@@ -104,6 +104,9 @@ def sections(ctx, out):
             if long and rng.random() < 0.6:
                 body.append(rng.choice([f"  {t} = S 64 5", f"  {t} = N 8 0", f"  {t} = E two words", f"  {t} = S 0 1", f"  {t} = E [mix 0 drums0]",
                                         f"  {t} = N 9 10", f"  {t} = S 2", f"  {t} = B 120000"]))
+            if rng.random() < 0.08:
+                # a line shaped like a section header, inside the braces, is one more line of no documented shape
+                body.append(rng.choice(["[solo]", "[EasySingle]", "[Events]", "[ExpertSingle]", "[x]"]))
             kind = rng.choice(["note", "sp", "te"])
             if kind == "note":
                 line = f"  {t} = N {rng.randint(0, 7)} {rng.choice([0, rng.randint(1, 500)])}"
